@@ -67,6 +67,7 @@ class Check:
         self.unresolved = []
         self.samples = []
         self.rules = {}                # rule id -> description
+        self.broken = []               # rules that could not run
         try:
             self.seed = int(os.environ.get('VERIF_SEED', '0'))
         except ValueError:
@@ -108,6 +109,18 @@ class Check:
         # reported through that finding; an unexplained shortfall means the rule lost its anchors.
         self.floors.append((rule, matched, minimum, what))
 
+    def guard(self, fn, *args, **kw):
+        """run one rule function; a crash inside it is recorded (the run ends as ANALYSIS-ERROR unless
+        another rule found a violation) instead of hiding what the other rules report"""
+        try:
+            return fn(*args, **kw)
+        except AnalysisError as e:
+            self.broken.append('%s: %s' % (getattr(fn, '__name__', 'rule'), e))
+        except Exception as e:   # noqa
+            import traceback
+            self.broken.append('%s crashed: %r at %s' % (getattr(fn, '__name__', 'rule'), e, traceback.format_exc().strip().splitlines()[-3].strip()))
+        return None
+
     def positive(self, rule, flagged, what=''):
         """An embedded known-bad example must be flagged on every run."""
         self.obligations.append((rule, 'embedded-positive-example', what, True))
@@ -118,7 +131,7 @@ class Check:
     # ------------------------------------------------------------- finish
     def finish(self, idx=None):
         for rule, matched, minimum, what in self.floors:
-            if matched < minimum and not any(f.rule == rule for f in self.findings):
+            if matched < minimum and not any(f.rule == rule for f in self.findings) and not self.broken:
                 raise AnalysisError('%s %s: instance floor not met (%d < %d) %s — the rule would pass vacuously'
                                     % (self.pid, rule, matched, minimum, what))
         known = [k for k in load_known() if k.get('property') == self.pid]
@@ -197,9 +210,11 @@ class Check:
         os.makedirs(evidence_dir(), exist_ok=True)
         with open(os.path.join(evidence_dir(), '%s.json' % self.pid), 'w') as fh:
             json.dump(ev, fh, indent=1, sort_keys=True, default=str)
+        for b in self.broken:
+            print('ANALYSIS-ERROR property=%s %s' % (self.pid, b))
         print('   %s: %d violation(s), %d known finding(s), %.2fs' % (
-            'FAIL' if viol else 'ok', len(viol), len(knownhits), wall))
-        return 1 if viol else 0
+            'FAIL' if viol else ('BROKEN' if self.broken else 'ok'), len(viol), len(knownhits), wall))
+        return 1 if viol else (2 if self.broken else 0)
 
 
 def run_check(pid, title, fn, tier):
